@@ -162,7 +162,8 @@ class Inbound:
         # Process the answer section (other than the initial SOA in
         # the first message).
         #
-        for rrset in message.answer[answer_index:]:
+        rrsets = message.answer[answer_index:]
+        for index, rrset in enumerate(rrsets):
             name = rrset.name
             rdataset = rrset
             if self.done:
@@ -192,6 +193,14 @@ class Inbound:
                         raise dns.exception.FormError("empty IXFR sequence")
                     if self.incremental and self.serial != soa.serial:
                         raise dns.exception.FormError("unexpected end of IXFR sequence")
+                    if index != len(rrsets) - 1:
+                        #
+                        # Records follow the final SOA in this message.  Reject
+                        # the transfer now, before anything is committed, so
+                        # that an error is never reported for a transfer that
+                        # has already been applied to the zone.
+                        #
+                        raise dns.exception.FormError("answers after final SOA")
                     self.txn.replace(name, rdataset)
                     self.txn.commit()
                     self.txn = None
